@@ -23,6 +23,7 @@ func shortFn(fn *ssa.Function) string { return relName(fn) }
 // the block ended here (return / panic).
 func (e *Eval) instr(fr *Frame, in ssa.Instruction, st *State, cur string) (string, *State, bool) {
 	c := e.c
+	e.curSt = st
 	switch x := in.(type) {
 	case *ssa.DebugRef:
 	case *ssa.Alloc:
